@@ -467,28 +467,16 @@ def sequentialSched (bins : List (List Json)) : Sched :=
 /-- a single-query function that reads and updates a shared state -/
 abbrev RespondS (σ : Type) := σ → Json → Json × σ
 
-structure WorkerS where
-  done : List Json
-  todo : List Json
-
-def stepAtS {σ : Type} (respond : RespondS σ) : WorkerId → σ × List WorkerS → σ × List WorkerS
+def stepAtS {σ : Type} (respond : RespondS σ) : WorkerId → σ × List Worker → σ × List Worker
   | _, (s, []) => (s, [])
   | 0, (s, w :: ws) =>
     match w.todo with
     | [] => (s, w :: ws)
-    | q :: r =>
-      let (a, s') := respond s q
-      (s', { done := w.done ++ [a], todo := r } :: ws)
-  | i + 1, (s, w :: ws) =>
-    let (s', ws') := stepAtS respond i (s, ws)
-    (s', w :: ws')
+    | q :: r => ((respond s q).2, { done := w.done ++ [(respond s q).1], todo := r } :: ws)
+  | i + 1, (s, w :: ws) => ((stepAtS respond i (s, ws)).1, w :: (stepAtS respond i (s, ws)).2)
 
-def execS {σ : Type} (respond : RespondS σ) (sched : Sched) (init : σ × List WorkerS) : σ × List WorkerS :=
+def execS {σ : Type} (respond : RespondS σ) (sched : Sched) (init : σ × List Worker) : σ × List Worker :=
   sched.foldl (fun st i => stepAtS respond i st) init
-
-def initWorkersS (bins : List (List Json)) : List WorkerS := bins.map (fun b => { done := [], todo := b })
-def collectedS (ws : List WorkerS) : List Json := (ws.map (·.done)).flatten
-def finishedS (ws : List WorkerS) : Bool := ws.all (fun w => w.todo.isEmpty)
 
 /-- `PredictionModelRecord::predict` with a cache: look the *rounded* key up, else compute and store -/
 def cachedPredict (round : Nat → Nat) (f : Nat → Nat) (cache : List (Nat × Nat)) (x : Nat) :
@@ -496,6 +484,20 @@ def cachedPredict (round : Nat → Nat) (f : Nat → Nat) (cache : List (Nat × 
   match cache.find? (fun p => p.1 == round x) with
   | some p => (p.2, cache)
   | none => (f x, (round x, f x) :: cache)
+
+/-- a single-query function whose answer is one cached prediction (queries are numbers) -/
+def cacheRespond (round f : Nat → Nat) : RespondS (List (Nat × Nat)) := fun cache q =>
+  match q with
+  | .num _ x => (.num (toString (cachedPredict round f cache x).1) (cachedPredict round f cache x).1,
+                 (cachedPredict round f cache x).2)
+  | _ => (.null, cache)
+
+/-- `assemble` with the bins run by worker threads under a schedule -/
+def assembleSched (persist : Bool) (respond : Json → Json) (sched : Sched) (bins : List (List Json))
+    (errors : List Json) : List Json :=
+  if bins.isEmpty then errors
+  else if persist then collected (exec respond sched (initWorkers bins)) ++ errors
+  else errors
 
 end Batch
 end Compass
